@@ -60,20 +60,26 @@ def ulps(a: float, b: float) -> float:
     return abs(a - b) / max(np.spacing(max(abs(a), abs(b))), 5e-324)
 
 
-def run_translated(prop: str, name: str, columns: list[np.ndarray]) -> list[list[str]]:
-    n = len(columns[0])
+def run_translated(prop: str, name: str, columns: list[np.ndarray], n: int | None = None) -> list[list[str]]:
+    """`n` is needed only for a function without inputs (no column to take the number of cases from)"""
+    n = len(columns[0]) if n is None else n
+    if n == 0:
+        return []
     lines = [f"src_{prop}_{name} " + " ".join(f2h(float(c[i])) for c in columns) for i in range(n)]
     return run_driver(lines)
 
 
-def compare(ctx: Ctx, prop: str, name: str, columns, real_outputs, rtol=1e-12, atol=0.0, kinds=None):
+def compare(ctx: Ctx, prop: str, name: str, columns, real_outputs, rtol=1e-12, atol=0.0, kinds=None, transform=None, n=None):
     """real_outputs: list of arrays (one per output of the translated function, in order).  Reports a disagreement
     (`<prop>.src.<name>`) when the translated source at Float and the real function differ beyond rtol/atol; counts the
-    bit-identical fraction into the evidence."""
-    out = run_translated(prop, name, columns)
-    n = len(columns[0])
+    bit-identical fraction into the evidence.  kinds[j] in {None/'α', 'Bool', 'Nat'}.  `transform[j](value, i)` (optional) maps
+    output j of case i into the space in which it is well conditioned before the tolerance is applied to it (bit-identity is
+    always counted on the raw values); `n` = number of cases, needed only for a function without inputs."""
+    n = len(columns[0]) if n is None else n
+    out = run_translated(prop, name, columns, n)
     ident = 0
     worst = 0.0
+    near0 = 0
     for i, toks in enumerate(out):
         same = True
         for j, ro in enumerate(real_outputs):
@@ -84,13 +90,23 @@ def compare(ctx: Ctx, prop: str, name: str, columns, real_outputs, rtol=1e-12, a
                     ctx.disagree(f"{prop}.src.{name}", {"inputs": [float(c[i]) for c in columns], "output": j, "translated": m, "code": bool(r)})
                     same = False
                 continue
+            if kinds and kinds[j] == "Nat":
+                if int(toks[j]) != int(r):
+                    ctx.disagree(f"{prop}.src.{name}", {"inputs": [float(c[i]) for c in columns], "output": j, "translated": int(toks[j]), "code": int(r)})
+                    same = False
+                continue
             m = h2f(toks[j])
             r = float(r)
             if m != r and not (math.isnan(m) and math.isnan(r)):
                 same = False
+                tm, tr = (transform[j](m, i), transform[j](r, i)) if (transform and transform[j]) else (m, r)
+                if atol and max(abs(tm), abs(tr)) <= atol:
+                    near0 += 1   # both values are zero to within `atol`: their distance in ulps says nothing
+                    continue
                 u = ulps(m, r)
                 worst = max(worst, u if math.isfinite(u) else 1e300)
-                if not (abs(m - r) <= rtol * max(abs(m), abs(r)) + atol):
+                # (the two raw values differ: a non-finite one on either side is a disagreement, `inf <= inf` must not accept it)
+                if not (math.isfinite(tm) and math.isfinite(tr) and abs(tm - tr) <= rtol * max(abs(tm), abs(tr)) + atol):
                     ctx.disagree(f"{prop}.src.{name}", {"inputs": [float(c[i]) for c in columns], "output": j, "translated": m, "code": r})
         ident += same
     ctx.count(f"src_{name}_cases", n)
@@ -98,4 +114,6 @@ def compare(ctx: Ctx, prop: str, name: str, columns, real_outputs, rtol=1e-12, a
     e = ctx.extra.setdefault("source_tie", {}).setdefault(name, {"cases": 0, "bit_identical": 0, "worst_ulps": 0.0})
     e["cases"] += n
     e["bit_identical"] += ident
-    e["worst_ulps"] = max(e["worst_ulps"], worst)
+    e["worst_ulps"] = max(e["worst_ulps"], worst)   # over the values that are not both zero to within `atol`
+    if near0:
+        e["differ_but_both_below_atol"] = e.get("differ_but_both_below_atol", 0) + near0
